@@ -312,7 +312,17 @@ def model_obs(inp, resp):
         for k in out:
             if 'flat' in out[k]:
                 out[k]['flat'] = [round(x, 6) for x in out[k]['flat']]
+    _drop_single_precision(inp, out)
     return out
+
+
+def _drop_single_precision(inp, out):
+    """single-precision sources are reduced in single precision: mean / std are then compared by the oracle with a
+    tolerance, not digit by digit with the model's double-precision value"""
+    if inp['ds'].get('dtype') == 'f4' and inp['func'] in ('std', 'mean'):
+        for k in out:
+            if isinstance(out[k], dict) and 'flat' in out[k]:
+                out[k]['flat'] = None
 
 
 def project(inp, obs):
@@ -331,6 +341,7 @@ def project(inp, obs):
         for k in out:
             if 'flat' in out[k]:
                 out[k]['flat'] = [round(x, 6) for x in out[k]['flat']]
+    _drop_single_precision(inp, out)
     return out
 
 
